@@ -116,6 +116,7 @@ func init() {
 					files := []File{{"c.yaml", cfg.YAML()}}
 					br := w.Build(files)
 					c.Distinct("all", c.ID)
+					c.Count("evaluations_override")
 					c.Distinct("nontrivial", c.ID)
 					if br.Panic != "" {
 						c.Violation("panic", "tool panicked:\n"+br.Panic, FilesMap(files), nil)
